@@ -395,8 +395,10 @@ def r_margin(idx, rep, rule="R-MARGIN", floor=6):
     rets = [s for s in iter_stmts(sf.node.body) if isinstance(s, ast.Return)]
     ok = False
     why = "return expression is not `inner support + margin * norm_vector(direction)`"
-    if len(rets) == 1 and isinstance(rets[0].value, ast.BinOp) and isinstance(rets[0].value.op, ast.Add):
-        l, r = rets[0].value.left, rets[0].value.right
+    from ..core.astutil import inline_temps_in, assign_pairs
+    rv = inline_temps_in(sf.node, rets[0].value) if len(rets) == 1 and rets[0].value is not None else None
+    if rv is not None and isinstance(rv, ast.BinOp) and isinstance(rv.op, ast.Add):
+        l, r = rv.left, rv.right
         for inner, off in ((l, r), (r, l)):
             if isinstance(inner, ast.Call) and u(inner.func) == "self.collider.support_function" and [u(a) for a in inner.args] == [d]:
                 if isinstance(off, ast.BinOp) and isinstance(off.op, ast.Mult):
@@ -407,7 +409,7 @@ def r_margin(idx, rep, rule="R-MARGIN", floor=6):
                         ok = True
                     elif m:
                         why = "the margin is scaled by `%s`, not by the unit vector norm_vector(%s)" % (u([x for x in fs if u(x) != "self.margin"][0]), d)
-    elif len(rets) == 1 and isinstance(rets[0].value, ast.BinOp) and isinstance(rets[0].value.op, ast.Sub):
+    elif rv is not None and isinstance(rv, ast.BinOp) and isinstance(rv.op, ast.Sub):
         why = "the margin offset is subtracted (support point moves inwards)"
     rep.check(ok, rule, ci.key + ".support_function|inner + margin * unit(d)", sf.where, why)
     for name in ("first_vertex", "center", "update_pose", "collider2origin"):
@@ -423,8 +425,9 @@ def r_margin(idx, rep, rule="R-MARGIN", floor=6):
     ab = ci.methods.get("aabb")
     loc = {}
     for st in iter_stmts(ab.node.body):
-        if isinstance(st, ast.Assign) and isinstance(st.targets[0], ast.Name):
-            loc[st.targets[0].id] = st.value
+        for t_, v_ in assign_pairs(st):
+            if isinstance(t_, ast.Name):
+                loc[t_.id] = v_
     rets = [s for s in iter_stmts(ab.node.body) if isinstance(s, ast.Return)]
     ok = False
     why = "Margin.aabb does not return array([lo - margin, hi + margin]).T of the inner box"
